@@ -53,6 +53,9 @@ OBJECT_CONFIGS = [
     (2, "rewrite", {"rules": "group:fuse_pad_into_conv_rule,normalize_pad_format_conv_rule,fuse_batchnorm_into_conv_rule,fuse_batchnorm_into_gemm_rule", "api": "apply"}),
     (2, "rewrite", {"rules": "group:materialize_reshape_shape_rule,min_min_rule,max_max_rule,min_max_rule,max_min_rule,successive_clip_rule,successive_relu_clip_rule", "api": "proto"}),
     (1, "rewrite", {"rules": "group:matmul_add_to_gemm_rule,gemm_to_matmul_add_rule,collapse_slice_rule,cast_constant_of_shape_rule,slice_split_rule", "api": "ir"}),
+    (2, "rewrite", {"rules": "fusion:_rms_normalization", "api": "apply"}),
+    (2, "rewrite", {"rules": "fusion:_layer_norm", "api": "apply"}),
+    (1, "rewrite", {"rules": "fusion:_rotary_embedding", "api": "apply"}),
     (2, "convert", {"target": 18, "fallback": False, "api": "pass"}),
     (2, "convert", {"target": 23, "fallback": False, "api": "pass"}),
     (1, "convert", {"target": 21, "fallback": True, "api": "pass"}),
@@ -60,6 +63,16 @@ OBJECT_CONFIGS = [
     (1, "convert", {"target": 25, "fallback": False, "api": "ir"}),
     (1, "convert", {"target": 13, "fallback": True, "api": "proto"}),
 ]
+
+
+FAMILY_AFFINITY = {
+    "gen:rms_norm": "fusion:_rms_normalization", "gen:layer_norm": "fusion:_layer_norm",
+    "gen:matmul_add": "group:matmul_add_to_gemm_rule,gemm_to_matmul_add_rule,collapse_slice_rule,cast_constant_of_shape_rule,slice_split_rule",
+    "gen:pad_conv": "group:fuse_pad_into_conv_rule,normalize_pad_format_conv_rule,fuse_batchnorm_into_conv_rule,fuse_batchnorm_into_gemm_rule",
+    "gen:bn_conv": "group:fuse_pad_into_conv_rule,normalize_pad_format_conv_rule,fuse_batchnorm_into_conv_rule,fuse_batchnorm_into_gemm_rule",
+    "gen:bn_gemm": "group:fuse_pad_into_conv_rule,normalize_pad_format_conv_rule,fuse_batchnorm_into_conv_rule,fuse_batchnorm_into_gemm_rule",
+    "gen:reshape_reshape": "group:reshape_reshape_rule,flatten_to_reshape_rule,cast_cast_rule,transpose_transpose_rule,unsqueeze_unsqueeze_rule",
+}
 
 
 def object_key(op: dict) -> str:
@@ -108,6 +121,9 @@ def gen_targets(seed: int, tier: dict, pools) -> list[dict]:
         k = r.randint(3, 5)
         for j in range(k):
             _, kind, params = r.weighted([(c, c[0]) for c in OBJECT_CONFIGS])
+            if j == 0 and fam in FAMILY_AFFINITY:
+                # make sure the family meets the rule set that stashes its parameters
+                kind, params = "rewrite", {"rules": FAMILY_AFFINITY[fam], "api": r.choice(["apply", "proto", "ir"])}
             if kind == "convert" and m["pool"] == "onnx_backend" and r.chance(0.5):
                 continue
             add(with_id({"kind": kind, "model": m, "family": fam, **copy.deepcopy(params)}))
@@ -486,6 +502,7 @@ def check(tier_name: str, seed: int, max_runs: int | None = None) -> int:
         fault_sites: set = set()
         states: set = set()
         hist_sigs: set = set()
+        changed_by_kind: collections.Counter = collections.Counter()
         for run, o in zip(runs, outs):
             if "error" in o:
                 harness_errors.append(f"run {run['run']}: {o['error'][:400]}")
@@ -494,6 +511,9 @@ def check(tier_name: str, seed: int, max_runs: int | None = None) -> int:
             viol, st = judge_run(run, o, ref, seed_dep)
             agg.update(st)
             for rec in o["log"]:
+                if rec.get("changed"):
+                    agg["ops_that_changed_their_model"] += 1
+                    changed_by_kind[rec["kind"]] += 1
                 if rec.get("fault_site"):
                     fault_sites.add(rec["fault_site"])
                 if rec.get("state"):
@@ -519,14 +539,21 @@ def check(tier_name: str, seed: int, max_runs: int | None = None) -> int:
         rr = Rng(seed).sub("redo")
         redo_idx = rr.sample(list(range(len(runs))), min(tier["redo"], len(runs)))
         redo_out = _par([runs[i] for i in redo_idx], pyc, workers, 600, None)
-        redo_diffs = 0
+        redo_diffs = addr_diffs = 0
         for i, o2 in zip(redo_idx, redo_out):
             o1 = outs[i]
             if "error" in o1 or "error" in o2:
                 continue
             if jdump(o1["log"]) != jdump(o2["log"]):
                 redo_diffs += 1
-                harness_errors.append(f"determinism: run {i} produced a different event log when re-executed")
+                what = []
+                for a, b in zip(o1["log"], o2["log"]):
+                    for k in sorted(set(a) | set(b)):
+                        if a.get(k) != b.get(k):
+                            what.append(f"op {a.get('i')} {a.get('kind')} field {k}: {str(a.get(k))[:120]} != {str(b.get(k))[:120]}")
+                harness_errors.append(f"determinism: run {i} produced a different event log when re-executed: {what[:3]}")
+            elif o1.get("addr_probe") != o2.get("addr_probe"):
+                addr_diffs += 1
 
         # ---- triage, minimise, write replays, confirm in a fresh process
         seen = set()
@@ -584,10 +611,14 @@ def check(tier_name: str, seed: int, max_runs: int | None = None) -> int:
         "ops_executed": agg["ops"], "ops_checked_vs_reference": agg["checked"], "failing_targets_checked": agg["checked_failing_target"],
         "faults": {"callee_exception": {"configured": agg["fault_configured"], "fired": agg["fault_fired"],
                                         "propagated": agg["fault_propagated"], "swallowed": agg["fault_swallowed"]}},
+        "probe_ops_that_changed_their_model": dict(changed_by_kind),
+        "probe_templates": dict(collections.Counter(r["env"].get("template") for r in runs)),
         "fault_sites_distinct": len(fault_sites), "fault_sites_sample": sorted(fault_sites)[:25],
         "global_state_fingerprints_reached": len(states),
         "fresh_interpreter_crosschecks": {"n": len(fresh_ids), "diffs": fresh_diffs},
-        "determinism_redo": {"runs": len(redo_idx), "diffs": redo_diffs},
+        "determinism_redo": {"runs": len(redo_idx), "diffs": redo_diffs, "address_probe_diffs": addr_diffs,
+                             "note": "address_probe = id() of an object allocated after the last operation; equal probes mean the whole "
+                                     "heap history replayed bit-for-bit (needed only to replay id()-order-dependent failures)"},
         "runs_per_hour": int(agg["runs"] / wall * 3600) if wall else 0,
         "simulated_time": "n/a: no clock is read by the code under test; 0 timers. Logical steps = operations.",
         "warm_up_s": round(warm_s, 1),
